@@ -60,6 +60,9 @@ func c01(e *Env) {
 	// tuning knob: few stream ids per backend connection in some runs, so that "no stream
 	// available" (the request moves on to the next host) is reached with tens of requests
 	cfg.MaxStreams = []int16{0, 0, 0, 4, 9}[e.C.Choose("maxstreams", 5)]
+	// tuning knob: short write queues in some runs, so that a connection whose writer has not run
+	// yet (or whose peer reads slowly) has a full queue after a few frames
+	cfg.MaxMessages = []int{0, 0, 0, 1, 3}[e.C.Choose("maxmessages", 5)]
 	f := newFwd(e, p, cfg)
 	if !f.bootOK() {
 		return
